@@ -579,7 +579,7 @@ FIXED = [
 
 def run_property(ck: Check, oracle, modes, n_quick=600, n_thorough=12000):
     ck.trusted = TRUST
-    ck.prove(extra_targets=["Corr/Check_start.v"])
+    ck.prove(extra_targets=["Corr/Check_start.v", "Conc/StartupExamples.v"])
     results = collect(ck, ck.n(n_quick, n_thorough), modes, FIXED)
     terms = [case_term(r) for r in results]
     bad = ck.coq_eval("start", HEADER, terms, "start_case", "check_start", shard=100)
